@@ -617,6 +617,18 @@ func generate(o *hx.Out, r *hx.Rand, n int, tier string) {
 	sizes := []int{2, 3, 2, 3, 1000}
 	for i := 0; i < n; i++ {
 		size := sizes[r.Intn(len(sizes))]
+		if r.Chance(8) {
+			// the planner's grouping rule on generated file-name sets (no files on disk)
+			pd := genPlanLevel(r)
+			runPlanLevel(o, &pd, "gen")
+			continue
+		}
+		if r.Chance(30) {
+			// block level: one key, chosen block layouts
+			d := genBlocks(r)
+			runBlocks(o, &d, "gen")
+			continue
+		}
 		switch k := r.Intn(100); {
 		case k < 52:
 			d := genSet(r, size, 6, r.Chance(2))
@@ -631,6 +643,10 @@ func generate(o *hx.Out, r *hx.Rand, n int, tier string) {
 			}
 			d.ViaEngine = r.Chance(30)
 			runCompact(o, &d, "gen")
+			if r.Chance(40) && len(d.Group) > 0 {
+				// the same multi-key file set at block level
+				runBlocks(o, &d, "gen")
+			}
 		case k < 59:
 			d := genSet(r, size, 4, false)
 			pickGroup(r, &d)
